@@ -290,6 +290,10 @@ macro_rules! quote_token_with_context {
     // original input tokens. Ignore it.
     ($tokens:ident $b3:tt $b2:tt $b1:tt @ $a1:tt $a2:tt $a3:tt) => {};
 
+    // [verif model] single-variable repetition
+    ($tokens:ident $b3:tt $b2:tt $b1:tt (#) ( # $var:ident ) * $a3:tt) => {
+        $crate::__private::push_all(&mut $tokens, &$var);
+    };
     // A repetition with no separator.
     ($tokens:ident $b3:tt $b2:tt $b1:tt (#) ( $($inner:tt)* ) * $a3:tt) => {{
         use $crate::__private::ext::*;
@@ -973,6 +977,7 @@ impl<'a, T: ToTokens + ?Sized> ToTokens for &'a T {
 
 pub mod __private {
     pub use core::stringify;
+    pub use super::__private_rep::push_all;
     pub use super::TokenStream;
     pub use super::Delimiter;
     use super::*;
@@ -1010,6 +1015,30 @@ pub mod __private {
         push_pound "#" push_question "?" push_rarrow "->" push_larrow "<-" push_rem "%" push_rem_eq "%=" push_fat_arrow "=>"
         push_semi ";" push_shl "<<" push_shl_eq "<<=" push_shr ">>" push_shr_eq ">>=" push_star "*" push_sub "-" push_sub_eq "-="
         push_underscore "_"
+    }
+}
+
+// ---- [verif model] quote's single-variable repetition `#(#v)*` ----
+verus! {
+// concatenation of a sequence of token sequences
+pub open spec fn flat(s: Seq<Seq<Tok>>) -> Seq<Tok>
+    decreases s.len(),
+{
+    if s.len() == 0 { Seq::<Tok>::empty() } else { s[0] + flat(s.drop_first()) }
+}
+
+pub trait RepToTokens {
+    // the token sequences of the elements, in iteration order
+    spec fn rep_toks(&self) -> Seq<Seq<Tok>>;
+}
+}
+pub mod __private_rep {
+    use super::*;
+    verus! {
+    #[verifier::external_body]
+    pub fn push_all<T: RepToTokens>(tokens: &mut TokenStream, v: &T)
+        ensures final(tokens)@ == old(tokens)@ + flat(v.rep_toks()),
+    { unimplemented!() }
     }
 }
 // ---- dependency stubs: assumed contracts on proc_macro2 / syn / quote / std (trusted base) ----
@@ -1190,7 +1219,25 @@ pub struct WherePredicate { _p: core::marker::PhantomData<()> }
 
 } // verus!
 
+verus! {
+#[verifier::external_body]
+pub struct SynType { _p: core::marker::PhantomData<()> }
+impl SynType { pub uninterp spec fn ptoks(&self) -> Seq<Tok>; }
+impl ToTokens for SynType {
+    open spec fn toks(&self) -> Seq<Tok> { self.ptoks() }
+    #[verifier::external_body]
+    fn to_tokens(&self, tokens: &mut TokenStream) { unimplemented!() }
+    #[verifier::external_body]
+    fn to_token_stream(&self) -> (r: TokenStream) { unimplemented!() }
+}
+pub struct SynField { pub ty: SynType }
+}
+
 pub mod syn {
+    pub use super::Error;
+    pub use super::SynField as Field;
+    pub use super::SynType as Type;
+    pub use super::syn_parse::parse2;
     pub use super::Path;
     pub use super::Member;
     pub use super::Index;
@@ -1220,7 +1267,7 @@ impl<T> Vec<T> {
 
     #[verifier::external_body]
     pub fn iter<'a>(&'a self) -> (r: Iter<'a, T>)
-        ensures r@ == self@,
+        ensures r@ == self@, r.items() == refs(self@),
     { unimplemented!() }
 
     #[verifier::external_body]
@@ -1258,6 +1305,277 @@ impl<'a, T> View for Iter<'a, T> {
 }
 
 } // verus!
+
+// ---------------------------------------------------------------- iterator adapters (ASSUMED contracts on core::iter)
+verus! {
+
+// first element of `s` satisfying `q`
+pub open spec fn first<T>(s: Seq<T>, q: spec_fn(T) -> bool) -> Option<T>
+    decreases s.len(),
+{
+    if s.len() == 0 {
+        None
+    } else if q(s[0]) {
+        Some(s[0])
+    } else {
+        first(s.drop_first(), q)
+    }
+}
+
+// the subsequence of the elements satisfying `q`, order kept
+pub open spec fn sfilter<T>(s: Seq<T>, q: spec_fn(T) -> bool) -> Seq<T>
+    decreases s.len(),
+{
+    if s.len() == 0 {
+        Seq::<T>::empty()
+    } else if q(s[0]) {
+        seq![s[0]] + sfilter(s.drop_first(), q)
+    } else {
+        sfilter(s.drop_first(), q)
+    }
+}
+
+// the sequence of references to the elements of `s` (what slice::Iter yields)
+pub open spec fn refs<'a, T>(s: Seq<T>) -> Seq<&'a T> { Seq::new(s.len(), |i: int| &s[i]) }
+
+// an executable predicate closure `f` decides the spec predicate `q`
+pub open spec fn decides<T, F: Fn(&T) -> bool>(f: F, q: spec_fn(T) -> bool) -> bool {
+    &&& forall|t: T| #[trigger] f.requires((&t,))
+    &&& forall|t: T| #[trigger] f.ensures((&t,), true) ==> q(t)
+    &&& forall|t: T| #[trigger] f.ensures((&t,), false) ==> !q(t)
+}
+
+pub trait Iterator: Sized {
+    type Item;
+
+    // the elements still to be yielded
+    spec fn items(&self) -> Seq<Self::Item>;
+
+    // core::iter::Iterator::find: the first element on which the predicate returns true
+    fn find<P: Fn(&Self::Item) -> bool>(&mut self, predicate: P) -> (r: Option<Self::Item>)
+        requires forall|t: Self::Item| #[trigger] predicate.requires((&t,)),
+        ensures forall|q: spec_fn(Self::Item) -> bool| decides(predicate, q) ==> r == #[trigger] first(old(self).items(), q);
+
+    // core::iter::Iterator::filter: the subsequence on which the predicate returns true
+    fn filter<P: Fn(&Self::Item) -> bool>(self, predicate: P) -> (r: Filter<Self::Item, P>)
+        requires forall|t: Self::Item| #[trigger] predicate.requires((&t,)),
+        ensures forall|q: spec_fn(Self::Item) -> bool| decides(predicate, q) ==> r.fitems() == #[trigger] sfilter(self.items(), q);
+
+    // core::iter::Iterator::map
+    fn map<B, F: Fn(Self::Item) -> B>(self, f: F) -> (r: Map<B, F>)
+        requires forall|t: Self::Item| #[trigger] f.requires((t,)),
+        ensures forall|g: spec_fn(Self::Item) -> B| (forall|t: Self::Item, b: B| #[trigger] f.ensures((t,), b) ==> b == g(t))
+            ==> r.mitems() == #[trigger] self.items().map_values(g);
+
+    // core::iter::Iterator::any
+    fn any<P: Fn(Self::Item) -> bool>(&mut self, predicate: P) -> (r: bool)
+        requires forall|t: Self::Item| #[trigger] predicate.requires((t,)),
+        ensures forall|q: spec_fn(Self::Item) -> bool|
+            ((forall|t: Self::Item| #[trigger] predicate.ensures((t,), true) ==> q(t)) && (forall|t: Self::Item| #[trigger] predicate.ensures((t,), false) ==> !q(t)))
+            ==> r == (#[trigger] first(old(self).items(), q) is Some);
+}
+
+impl<'a, T> Iterator for Iter<'a, T> {
+    type Item = &'a T;
+    open spec fn items(&self) -> Seq<&'a T> { refs(self@) }
+    #[verifier::external_body]
+    fn find<P: Fn(&Self::Item) -> bool>(&mut self, predicate: P) -> (r: Option<Self::Item>) { unimplemented!() }
+    #[verifier::external_body]
+    fn filter<P: Fn(&Self::Item) -> bool>(self, predicate: P) -> (r: Filter<Self::Item, P>) { unimplemented!() }
+    #[verifier::external_body]
+    fn any<P: Fn(Self::Item) -> bool>(&mut self, predicate: P) -> (r: bool) { unimplemented!() }
+    #[verifier::external_body]
+    fn map<B, F: Fn(Self::Item) -> B>(self, f: F) -> (r: Map<B, F>) { unimplemented!() }
+}
+
+#[verifier::external_body]
+#[verifier::reject_recursive_types(T)]
+#[verifier::reject_recursive_types(P)]
+pub struct Filter<T, P> { _p: core::marker::PhantomData<(T, P)> }
+
+impl<T, P> Filter<T, P> {
+    pub uninterp spec fn fitems(&self) -> Seq<T>;
+}
+
+impl<T, P0> Iterator for Filter<T, P0> {
+    type Item = T;
+    open spec fn items(&self) -> Seq<T> { self.fitems() }
+    #[verifier::external_body]
+    fn find<P: Fn(&Self::Item) -> bool>(&mut self, predicate: P) -> (r: Option<Self::Item>) { unimplemented!() }
+    #[verifier::external_body]
+    fn filter<P: Fn(&Self::Item) -> bool>(self, predicate: P) -> (r: Filter<Self::Item, P>) { unimplemented!() }
+    #[verifier::external_body]
+    fn any<P: Fn(Self::Item) -> bool>(&mut self, predicate: P) -> (r: bool) { unimplemented!() }
+    #[verifier::external_body]
+    fn map<B, F: Fn(Self::Item) -> B>(self, f: F) -> (r: Map<B, F>) { unimplemented!() }
+}
+
+
+#[verifier::external_body]
+#[verifier::reject_recursive_types(T)]
+#[verifier::reject_recursive_types(F)]
+pub struct Map<T, F> { _p: core::marker::PhantomData<(T, F)> }
+
+impl<T, F> Map<T, F> {
+    pub uninterp spec fn mitems(&self) -> Seq<T>;
+}
+
+impl<T, F0> Iterator for Map<T, F0> {
+    type Item = T;
+    open spec fn items(&self) -> Seq<T> { self.mitems() }
+    #[verifier::external_body]
+    fn find<P: Fn(&Self::Item) -> bool>(&mut self, predicate: P) -> (r: Option<Self::Item>) { unimplemented!() }
+    #[verifier::external_body]
+    fn filter<P: Fn(&Self::Item) -> bool>(self, predicate: P) -> (r: Filter<Self::Item, P>) { unimplemented!() }
+    #[verifier::external_body]
+    fn any<P: Fn(Self::Item) -> bool>(&mut self, predicate: P) -> (r: bool) { unimplemented!() }
+    #[verifier::external_body]
+    fn map<B, F: Fn(Self::Item) -> B>(self, f: F) -> (r: Map<B, F>) { unimplemented!() }
+}
+
+
+// ---------------------------------------------------------------- Peekable (ASSUMED contracts on core::iter::Peekable)
+#[verifier::external_body]
+#[verifier::reject_recursive_types(I)]
+pub struct Peekable<I> { _p: core::marker::PhantomData<I> }
+
+impl<I: Iterator> Peekable<I> {
+    // the elements still to be yielded
+    pub uninterp spec fn pitems(&self) -> Seq<I::Item>;
+
+    #[verifier::external_body]
+    pub fn peek(&mut self) -> (r: Option<&I::Item>)
+        ensures
+            final(self).pitems() == old(self).pitems(),
+            old(self).pitems().len() == 0 ==> r is None,
+            old(self).pitems().len() > 0 ==> r == Some(&old(self).pitems()[0]),
+    { unimplemented!() }
+
+    #[verifier::external_body]
+    pub fn next(&mut self) -> (r: Option<I::Item>)
+        ensures
+            old(self).pitems().len() == 0 ==> (r is None && final(self).pitems() == old(self).pitems()),
+            old(self).pitems().len() > 0 ==> (r == Some(old(self).pitems()[0]) && final(self).pitems() == old(self).pitems().drop_first()),
+    { unimplemented!() }
+}
+
+impl<'a, T> Iter<'a, T> {
+    #[verifier::external_body]
+    pub fn peekable(self) -> (r: Peekable<Iter<'a, T>>)
+        ensures r.pitems() == refs(self@),
+    { unimplemented!() }
+}
+
+// Vec<TokenStream> under quote's `#(#v)*`
+impl RepToTokens for Vec<TokenStream> {
+    open spec fn rep_toks(&self) -> Seq<Seq<Tok>> { self@.map_values(|t: TokenStream| t@) }
+}
+
+} // verus!
+
+macro_rules! vec {
+    () => { Vec::new() };
+}
+// ---- Option adapters: assumed contracts on core::option (trusted base) ----
+verus! {
+
+pub assume_specification<T, F> [core::option::Option::<T>::or_else] (o: Option<T>, f: F) -> (r: Option<T>)
+    where F: FnOnce() -> Option<T> + core::marker::Destruct, T: core::marker::Destruct,
+    requires o is None ==> f.requires(()),
+    ensures
+        o is Some ==> r == o,
+        o is None ==> f.ensures((), r);
+
+} // verus!
+
+verus! {
+pub assume_specification<T, U, F> [core::option::Option::<T>::map_or] (o: Option<T>, default: U, f: F) -> (r: U)
+    where F: FnOnce(T) -> U + core::marker::Destruct, T: core::marker::Destruct, U: core::marker::Destruct,
+    requires o is Some ==> f.requires((o->0,)),
+    ensures
+        o is None ==> r == default,
+        o is Some ==> f.ensures((o->0,), r);
+
+pub assume_specification<T, F> [core::option::Option::<T>::is_some_and] (o: Option<T>, f: F) -> (r: bool)
+    where F: FnOnce(T) -> bool + core::marker::Destruct, T: core::marker::Destruct,
+    requires o is Some ==> f.requires((o->0,)),
+    ensures
+        o is None ==> !r,
+        o is Some ==> f.ensures((o->0,), r);
+} // verus!
+// ---- strings, errors, parsing: assumed contracts (trusted base) ----
+pub mod str_axioms {
+    use vstd::prelude::*;
+    verus! {
+    // pattern matching on &str uses str equality; String deref uses views.  One axiom relates the two.
+    pub broadcast axiom fn axiom_str_eq_is_view_eq(a: &str, b: &str)
+        ensures (a == b) == (#[trigger] a@ == #[trigger] b@);
+    }
+}
+
+verus! {
+
+#[verifier::external_body]
+pub struct Error { _p: core::marker::PhantomData<()> }
+
+pub type Result<T> = core::result::Result<T, Error>;
+
+impl Ident {
+    #[verifier::external_body]
+    pub fn to_string(&self) -> (r: String)
+        ensures r@ == self.name(),
+    { unimplemented!() }
+
+    #[verifier::external_body]
+    pub fn span(&self) -> (r: Span) { unimplemented!() }
+}
+
+// Display of a token stream; a single identifier prints as its name (proc_macro2)
+pub uninterp spec fn toks_to_string(t: Seq<Tok>) -> Seq<char>;
+
+impl TokenStream {
+    #[verifier::external_body]
+    pub fn to_string(&self) -> (r: String)
+        ensures
+            r@ == toks_to_string(self@),
+            forall|n: Seq<char>| self@ == seq![Tok::Id(n)] ==> r@ == n,
+    { unimplemented!() }
+}
+
+pub assume_specification [<std::string::String as std::convert::AsRef<str>>::as_ref] (s: &std::string::String) -> (r: &str)
+    ensures r@ == s@;
+
+// the result of parsing a token stream is a function of the tokens (whatever syn does, it does it deterministically)
+pub uninterp spec fn spec_parse2<T>(t: Seq<Tok>) -> Result<T>;
+
+} // verus!
+
+pub mod syn_parse {
+    use super::*;
+    verus! {
+    #[verifier::external_body]
+    pub fn parse2<T>(tokens: TokenStream) -> (r: Result<T>)
+        ensures r == spec_parse2::<T>(tokens@),
+    { unimplemented!() }
+    }
+}
+
+verus! {
+}
+
+verus! {
+impl Error {
+    #[verifier::external_body]
+    pub fn new(span: Span, message: &str) -> (r: Error) { unimplemented!() }
+}
+pub trait Spanned {
+    fn span(&self) -> Span;
+}
+impl Spanned for Option<TokenStream> {
+    #[verifier::external_body]
+    fn span(&self) -> (r: Span) { unimplemented!() }
+}
+}
 verus! {
 // real type definitions of o2o-impl, copied byte-exact (derives dropped / replaced as logged)
 
@@ -1277,9 +1595,9 @@ pub enum Kind {
     OwnedIntoExisting,
     RefIntoExisting,
 }
-pub type ApplicableTo = [bool; 6];
+type ApplicableTo = [bool; 6];
 
-pub struct DataTypeAttrs {
+ struct DataTypeAttrs {
     pub attrs: Vec<TraitAttr>,
     pub ghosts_attrs: Vec<GhostsAttr>,
     pub where_attrs: Vec<WhereAttr>,
@@ -1287,7 +1605,7 @@ pub struct DataTypeAttrs {
 
     pub error_instrs: Vec<DataTypeInstruction>,
 }
-pub type MemberRepeatFor = [bool; 5];
+type MemberRepeatFor = [bool; 5];
 pub enum MemberAttrType {
     Attr,
     Child,
@@ -1296,12 +1614,12 @@ pub enum MemberAttrType {
     TypeHint,
 }
 
-pub struct MemberRepeatAttr {
+ struct MemberRepeatAttr {
     pub permeate: bool,
     pub repeat_for: MemberRepeatFor,
 }
 
-pub struct MemberAttrs {
+ struct MemberAttrs {
     pub attrs: Vec<MemberAttr>,
     pub child_attrs: Vec<ChildAttr>,
     pub parent_attrs: Vec<ParentAttr>,
@@ -1317,13 +1635,13 @@ pub struct MemberAttrs {
     pub error_instrs: Vec<MemberInstruction>,
 }
 #[derive(Clone, Copy, PartialEq, Eq, Structural)]
-pub enum TypeHint {
+ enum TypeHint {
     Unit = 0,
     Struct = 1,
     Tuple = 2,
     Unspecified = 3,
 }
-pub type TraitRepeatFor = [bool; 4];
+type TraitRepeatFor = [bool; 4];
 pub enum TraitAttrType {
     Vars,
     Update,
@@ -1331,13 +1649,13 @@ pub enum TraitAttrType {
     DefaultCase,
 }
 
-pub struct TraitAttr {
+ struct TraitAttr {
     pub core: TraitAttrCore,
     pub fallible: bool,
     pub applicable_to: ApplicableTo,
 }
 
-pub struct TraitAttrCore {
+ struct TraitAttrCore {
     pub ty: TypePath,
     pub err_ty: Option<TypePath>,
     pub type_hint: TypeHint,
@@ -1353,124 +1671,124 @@ pub struct TraitAttrCore {
     pub inner_attribute: Option<TokenStream>,
 }
 
-pub struct InitData {
+ struct InitData {
     pub ident: Ident,
     _colon: Token![:],
     pub action: TokenStream,
 }
 
-pub struct GhostsAttr {
+ struct GhostsAttr {
     pub attr: StructGhostAttrCore,
     pub applicable_to: ApplicableTo,
 }
 
-pub struct StructGhostAttrCore {
+ struct StructGhostAttrCore {
     pub container_ty: Option<TypePath>,
     pub ghost_data: Punctuated<GhostData, Token![,]>,
 }
 
-pub struct GhostData {
+ struct GhostData {
     pub child_path: Option<ChildPath>,
     pub ghost_ident: GhostIdent,
     pub action: TokenStream,
 }
 
-pub enum GhostIdent {
+ enum GhostIdent {
     Member(Member),
     Destruction(TokenStream),
 }
 
-pub struct ChildPath {
+ struct ChildPath {
     pub child_path: Punctuated<Member, Token![.]>,
     pub child_path_str: Vec<String>,
 }
-pub struct WhereAttr {
+ struct WhereAttr {
     pub container_ty: Option<TypePath>,
     pub where_clause: Punctuated<WherePredicate, Token![,]>,
 }
-pub struct ChildParentsAttr {
+ struct ChildParentsAttr {
     pub container_ty: Option<TypePath>,
     pub child_parents: Punctuated<ChildParentData, Token![,]>,
 }
-pub struct ChildParentData {
+ struct ChildParentData {
     pub ty: syn::Path,
     pub type_hint: TypeHint,
     pub field_path: Punctuated<Member, Token![.]>,
     field_path_str: String,
 }
 
-pub struct MemberAttr {
+ struct MemberAttr {
     pub attr: MemberAttrCore,
     pub fallible: bool,
     pub original_instr: String,
     applicable_to: ApplicableTo,
 }
 
-pub struct MemberAttrCore {
+ struct MemberAttrCore {
     pub container_ty: Option<TypePath>,
     pub member: Option<Member>,
     pub action: Option<TokenStream>,
 }
 
-pub struct ParentAttr {
+ struct ParentAttr {
     pub container_ty: Option<TypePath>,
     pub child_fields: Option<Vec<ParentChildField>>,
 }
 
-pub struct ParentChildField {
+ struct ParentChildField {
     pub this_member: Member,
     pub attrs: Vec<ParentChildFieldAttr>,
     pub sub_path: Vec<(Member, Option<syn::Path>)>,
     pub sub_path_tokens: TokenStream,
 }
 
-pub struct ParentChildFieldAttr {
+ struct ParentChildFieldAttr {
     pub that_member: Option<Member>,
     pub action: Option<TokenStream>,
     pub applicable_to: ApplicableTo,
 }
 
-pub struct GhostAttr {
+ struct GhostAttr {
     pub attr: FieldGhostAttrCore,
     pub applicable_to: ApplicableTo,
 }
 
-pub struct FieldGhostAttrCore {
+ struct FieldGhostAttrCore {
     pub container_ty: Option<TypePath>,
     pub action: Option<TokenStream>,
 }
-pub enum ApplicableAttr<'a> {
+ enum ApplicableAttr<'a> {
     Field(&'a MemberAttrCore),
     Ghost(&'a FieldGhostAttrCore),
     ParentChildField(&'a ParentChildField, Kind),
 }
 
-pub struct ChildAttr {
+ struct ChildAttr {
     pub container_ty: Option<TypePath>,
     pub child_path: ChildPath,
 }
 
-pub struct AsAttr {
+ struct AsAttr {
     pub container_ty: Option<TypePath>,
     pub member: Option<Member>,
     pub tokens: TokenStream,
 }
 
-pub struct LitAttr {
+ struct LitAttr {
     pub container_ty: Option<TypePath>,
     pub tokens: TokenStream,
 }
 
-pub struct PatAttr {
+ struct PatAttr {
     pub container_ty: Option<TypePath>,
     pub tokens: TokenStream,
 }
 
-pub struct VariantTypeHintAttr {
+ struct VariantTypeHintAttr {
     pub container_ty: Option<TypePath>,
     pub type_hint: TypeHint,
 }
-pub enum DataTypeInstruction {
+ enum DataTypeInstruction {
     Map(TraitAttr),
     Ghosts(GhostsAttr),
     Where(WhereAttr),
@@ -1483,7 +1801,7 @@ pub enum DataTypeInstruction {
     Unrecognized,
 }
 
-pub enum MemberInstruction {
+ enum MemberInstruction {
     Map(MemberAttr),
     Ghost(GhostAttr),
     Ghosts(GhostsAttr),
@@ -1502,7 +1820,7 @@ pub enum MemberInstruction {
     UnrecognizedWithError { instr: String, span: Span },
     Unrecognized,
 }
-pub struct Struct<'a> {
+ struct Struct<'a> {
     pub attrs: DataTypeAttrs,
     pub ident: &'a Ident,
     pub generics: &'a Generics,
@@ -1511,20 +1829,20 @@ pub struct Struct<'a> {
     pub unit: bool,
 }
 
-pub struct Field {
+ struct Field {
     pub attrs: MemberAttrs,
     pub idx: usize,
     pub member: Member,
     pub member_str: String,
     pub ty: Option<Path>
 }
-pub struct Enum<'a> {
+ struct Enum<'a> {
     pub attrs: DataTypeAttrs,
     pub ident: &'a Ident,
     pub generics: &'a Generics,
     pub variants: Vec<Variant>,
 }
-pub struct Variant {
+ struct Variant {
     pub attrs: MemberAttrs,
     pub ident: Ident,
     _idx: usize,
@@ -1532,22 +1850,22 @@ pub struct Variant {
     pub named_fields: bool,
     pub unit: bool,
 }
-pub enum DataType<'a> {
+ enum DataType<'a> {
     Struct(&'a Struct<'a>),
     Enum(&'a Enum<'a>),
 }
 
-pub enum DataTypeMember<'a> {
+ enum DataTypeMember<'a> {
     Field(&'a Field),
     Variant(&'a Variant),
 }
 #[derive(Clone, Copy, PartialEq, Eq, Structural)]
-pub enum ImplType {
+enum ImplType {
     Struct,
     Enum,
     Variant,
 }
-pub struct ImplContext<'a> {
+struct ImplContext<'a> {
     input: &'a DataType<'a>,
     impl_type: ImplType,
     struct_attr: &'a TraitAttrCore,
@@ -1557,11 +1875,11 @@ pub struct ImplContext<'a> {
     has_post_init: bool,
     fallible: bool,
 }
-pub struct ChildRenderContext<'a> {
+struct ChildRenderContext<'a> {
     pub ty: &'a syn::Path,
     pub type_hint: TypeHint
 }
-pub struct QuoteTraitParams<'a> {
+struct QuoteTraitParams<'a> {
     pub attr: Option<&'a TokenStream>,
     pub impl_attr: Option<&'a TokenStream>,
     pub inner_attr: Option<&'a TokenStream>,
@@ -1572,6 +1890,20 @@ pub struct QuoteTraitParams<'a> {
     pub impl_gens: TokenStream,
     pub where_clause: Option<TokenStream>,
     pub r: Option<TokenStream>,
+}
+struct FieldContainer<'a> {
+    gr_idx: usize,
+    path: String,
+    field_data: FieldData<'a>
+}
+enum FieldData<'a> {
+    Field(&'a Field),
+    GhostData(&'a GhostData),
+    ParentChildField(&'a Field, &'a ParentChildField),
+}
+enum VariantData<'a> {
+    Variant(&'a Variant),
+    GhostData(&'a GhostData),
 }
 } // verus!
 
